@@ -13,7 +13,7 @@ import time
 
 ROOT   = os.path.dirname(os.path.dirname(os.path.dirname(os.path.abspath(__file__))))
 REPO   = os.environ.get("VERIF_REPO", "/repo")
-BUILD  = os.path.join(ROOT, ".build")
+BUILD  = os.environ.get("VERIF_BUILD") or os.path.join(ROOT, ".build")   # VERIF_BUILD: scratch build tree for VERIF_REPO=<worktree>
 GUARD  = "SIMGRID_VERIF"
 NCPU   = os.cpu_count() or 8
 
@@ -97,8 +97,11 @@ def ensure(flavour, quiet=False):
     env = dict(os.environ)
     env["CFLAGS"] = flags
     env["CXXFLAGS"] = flags
-    env["CCACHE_DIR"] = os.path.join(BUILD, "ccache")
+    # the compiler cache is shared between /verif/.build and scratch build trees (VERIF_BUILD)
+    env["CCACHE_DIR"] = os.path.join(ROOT, ".build", "ccache")
     env["CCACHE_MAXSIZE"] = "8G"
+    env["CCACHE_BASEDIR"] = REPO
+    env["CCACHE_NOHASHDIR"] = "1"
     env.pop("VERIF_SEED", None)
     with _Lock(os.path.join(BUILD, flavour + ".lock")):
         t0 = time.time()
